@@ -176,6 +176,27 @@ func (fc *fileCtx) raceInstrument() {
 		case *ast.FuncDecl:
 			// constructors run before the instance is shared
 			return true
+		case *ast.CallExpr:
+			// x.M() where x is a pointer to a cache struct and M has a value receiver: the call copies
+			// the whole struct (plain reads of every field)
+			if sel, ok := v.Fun.(*ast.SelectorExpr); ok && !inside(sel.X) {
+				if sl := info.Selections[sel]; sl != nil && sl.Kind() == types.MethodVal && ptrToCacheStruct(typeOf(sel.X)) {
+					if fn, ok := sl.Obj().(*types.Func); ok {
+						if sig, ok := fn.Type().(*types.Signature); ok && sig.Recv() != nil {
+							if _, isPtr := sig.Recv().Type().(*types.Pointer); !isPtr && len(sl.Index()) == 1 {
+								fc.wrap(sel.X, 3, "zzverifsim.ReadAllP(", ", "+lbl(v, "value-receiver-copy")+")")
+								stats["race.recvcopy"]++
+							}
+						}
+					}
+				}
+			}
+		case *ast.StarExpr:
+			// *p as a value (struct copy) where p points to a cache struct
+			if tv, ok := info.Types[v]; ok && tv.IsValue() && !writes[v] && !inside(v.X) && ptrToCacheStruct(typeOf(v.X)) {
+				fc.wrap(v.X, 3, "zzverifsim.ReadAllP(", ", "+lbl(v, "struct-copy")+")")
+				stats["race.structcopy"]++
+			}
 		case *ast.SelectorExpr:
 			s := info.Selections[v]
 			if s == nil || s.Kind() != types.FieldVal || inside(v) {
